@@ -19,6 +19,12 @@ MARK_BASE = 0x5A0000
 
 
 def term_key(isa, term, rng, orig=True):
+    if isa == "mips32":
+        # (one encoding per kind; the transfer instructions carry their
+        # delay-slot nop)
+        return {"jmp": "jmp", "jcc": "jne", "halt": "ud2", "call": "call",
+                "ret": "ret", "ijmp": "ijmp", "icall": "icall",
+                "syscall": "syscall"}[term]
     if term == "jmp":
         return rng.choice(["jmp", "jmp32"]) if orig and isa != "arm64" \
             else "jmp"
@@ -44,6 +50,11 @@ class Gen:
         r = self.rng.random()
         if self.knobs.get("isa"):
             return self.knobs["isa"]
+        if r < self.knobs.get("mips_p", 0):
+            # big-endian MIPS32 (only for the checks that do not read the
+            # CFG instruction by instruction: a transfer and its delay slot
+            # are one item here)
+            return "mips32", "elf"
         if r < 0.55:
             return "x64", "elf"
         if r < 0.70:
@@ -192,8 +203,9 @@ class Gen:
                 else:
                     t = rng.choice(case["externs"])
                 b["items"].append({"k": "call", "t": t})
-            elif term in ("ijmp", "icall") and isa != "arm64" and \
-                    self.knobs.get("sym_indirect", True) and rng.random() < 0.5:
+            elif term in ("ijmp", "icall") and isa not in ("arm64", "mips32") \
+                    and self.knobs.get("sym_indirect", True) and \
+                    rng.random() < 0.5:
                 b["items"].append({"k": term + "_sym",
                                    "t": rng.choice(case["externs"])})
             else:
@@ -352,7 +364,7 @@ class Gen:
         # temporary labels (assembler-private prefix): the module symbol gets
         # a per-patch suffix
         temp = {}
-        if isa != "ia32":
+        if isa not in ("ia32", "mips32"):
             for j, nm in enumerate(list(labels_here)):
                 if rng.random() < 0.35:
                     labels_here[j] = ".L" + nm
@@ -379,7 +391,7 @@ class Gen:
             lines.append({"l": labels_here[1]})
             own.append(labels_here[1])
             if rng.random() < 0.6:
-                third = ("" if isa == "ia32" or rng.random() < 0.5
+                third = ("" if isa in ("ia32", "mips32") or rng.random() < 0.5
                          else ".L") + f"pt{eid}_e"
                 if third.startswith(".L"):
                     temp[third] = True
@@ -439,7 +451,7 @@ class Gen:
             lines.append({"k": term_key(isa, "halt", rng, orig=False)})
         elif end < 0.32:
             nm = f"pt{eid}_z"
-            if isa != "ia32" and rng.random() < 0.3:
+            if isa not in ("ia32", "mips32") and rng.random() < 0.3:
                 nm = ".L" + nm
                 temp[nm] = True
             lines.append({"l": nm})
@@ -449,7 +461,7 @@ class Gen:
             # the patch also emits data into another section (an existing
             # one or a new one) and refers to it
             nm = f"pt{eid}_o"
-            if rng.random() < 0.5:
+            if rng.random() < 0.5 and isa != "mips32":
                 nm = ".L" + nm
                 temp[nm] = True
             sec = rng.choice([".data", ".data", f"nsec{eid % 2}"])
@@ -472,7 +484,8 @@ class Gen:
         if self.knobs.get("align_lines") and rng.random() < 0.25:
             # real alignment requirements inside the patch (only for checks
             # that do not predict exact byte positions)
-            a1 = rng.choice([2, 4, 8, 16] if isa != "arm64" else [4, 8, 16])
+            a1 = rng.choice([2, 4, 8, 16] if isa not in ("arm64", "mips32")
+                            else [4, 8, 16])
             at = rng.choice([0, 0, 1, len(lines)])
             if at == 0 and rng.random() < 0.4:
                 # two requirements on one address, separated by a label
@@ -499,6 +512,8 @@ class Gen:
     def mark(self, eid):
         if self.case["isa"] == "arm64":
             return (0x4000 + eid) & 0xFFFF
+        if self.case["isa"] == "mips32":
+            return (0x1000 + eid) & 0x7FFF
         return MARK_BASE + eid
 
     # ------------------------------------------------------------ edits
@@ -642,7 +657,7 @@ class Gen:
                     p = {"lines": [{"k": "bytes",
                                     "hex": rng.randbytes(
                                         rng.randrange(1, 5)).hex()}]}
-                    if case["isa"] != "ia32" and \
+                    if case["isa"] not in ("ia32", "mips32") and \
                             rng.random() < self.knobs.get("data_temp_p", 0.5):
                         p["lines"].insert(
                             rng.choice([0, 1]),
